@@ -341,6 +341,74 @@ def observe_builder(source: str, exts: List[str], hider: bool = False) -> Dict[s
     return {"cfg": cfg, "events": events, "status": status, "stack": stack_state, "nested": nested_calls["n"]}
 
 
+def extension_class_histories() -> List[Dict[str, Any]]:
+    """History of the extension CLASSES used in one process: an extension class deriving from another extension class (it handles
+    the node types of its base plus some of its own), walked after / before / without its base having been used by an earlier
+    walk.  Every typed extension must leave each node it entered, and enter / leave must nest, whatever was walked before."""
+    from pydoctor import model, astutils, visitor as V
+    SRC = "class A:\n    def f(self): pass\n    class B:\n        def g(self): pass\ndef h(): pass\nx = 1\n"
+    bad: List[Dict[str, Any]] = []
+
+    def make() -> Tuple[type, type, List[List[str]]]:
+        log: List[List[str]] = []
+
+        class Base(astutils.NodeVisitorExt):
+            when = V.When.AFTER
+            tag = "base"
+
+            def visit_ClassDef(self, node):
+                log.append([self.tag, "visit", node.name])
+
+            def depart_ClassDef(self, node):
+                log.append([self.tag, "depart", node.name])
+
+        class Derived(Base):
+            tag = "derived"
+
+            def visit_FunctionDef(self, node):
+                log.append([self.tag, "visit", node.name])
+
+            def depart_FunctionDef(self, node):
+                log.append([self.tag, "depart", node.name])
+        return Base, Derived, log
+
+    def walk(ext: type, name: str) -> None:
+        system = model.System()
+        system._astbuilder_visitors.append(ext)
+        mod = model.Module(system, name)
+        mod._py_string = SRC
+        system._addUnprocessedModule(mod)
+        orig = model.System.msg
+        model.System.msg = lambda self, *a, **k: None
+        try:
+            system.processModule(mod)
+        finally:
+            model.System.msg = orig
+
+    for history in (["derived"], ["base", "derived"], ["derived", "base", "derived"], ["base", "base", "derived", "derived"]):
+        Base, Derived, log = make()
+        for step, which in enumerate(history):
+            del log[:]
+            try:
+                walk(Base if which == "base" else Derived, f"m{step}")
+            except Exception as e:
+                bad.append({"history": history, "step": step, "what": f"walk aborted: {type(e).__name__}: {e}"})
+                continue
+            want = ["A", "B"] if which == "base" else ["A", "f", "B", "g", "h"]
+            entered = [n for t, k, n in log if k == "visit"]
+            left = [n for t, k, n in log if k == "depart"]
+            stack: List[str] = []
+            nested = True
+            for t, k, n in log:
+                if k == "visit":
+                    stack.append(n)
+                elif not stack or stack.pop() != n:
+                    nested = False
+            if entered != want or sorted(left) != sorted(want) or not nested or stack:
+                bad.append({"history": history, "step": step, "which": which, "entered": entered, "left": left, "nested": nested and not stack})
+    return bad
+
+
 def builder_states_of_package(path) -> List[Tuple[str, Tuple[int, bool, bool]]]:
     """Build a package from disk; after every processModuleAST record (len(_stack), current is None, currentMod is None)."""
     from pydoctor import model, astbuilder
@@ -521,6 +589,11 @@ def run(ctx: Ctx) -> int:
         if o["stack"].get("stack") != 0 or not o["stack"].get("current_is_none"):
             ctx.violation({"invariant": "StackEmptyAfterModule", "origin": "astbuilder", "input": src,
                            "observed": o["stack"], "key": "stack:" + src[:80]})
+    # ---- histories of extension classes (a class deriving from another extension class, used after / before its base)
+    for wit in extension_class_histories():
+        ctx.violation({"invariant": "ExtBalanced", "origin": "extension-class-history", "observed": wit,
+                       "key": "extclass:" + json.dumps(wit.get("history")) + ":" + str(wit.get("step"))})
+    ctx.extra["extension_class_histories"] = 4
     # ---- the scope stack after every module of a PACKAGE tree (modules whose parent is a package, on-demand nesting)
     pkg_modules = pkg_bad = 0
     for t in range(6 if ctx.quick else 60):
